@@ -105,4 +105,60 @@ MUTANTS = [
                 #(#unpacked;)*
                 if __ptr <= __args.len() {
                     Ok(#construct)""")]},
+ # ---------------- behaviour-preserving variants: every check must stay silent ----------------
+ {"name": "silent-add-tracing-in-cleanup", "props": ["C04", "C05", "C06", "C08"], "expect": "silent",
+  "edits": [("ractor/src/actor.rs", "        self.actor.set_status(ActorStatus::Stopping);\n        self.actor.terminate();",
+             "        tracing::trace!(\"cleanup of {:?}\", self.actor.get_id());\n        self.actor.set_status(ActorStatus::Stopping);\n        self.actor.terminate();")]},
+ {"name": "silent-match-instead-of-if-let-in-cleanup", "props": ["C04", "C05", "C08"], "expect": "silent",
+  "edits": [("ractor/src/actor.rs", "        if let Some(event) = event {\n            self.actor.notify_supervisor(event);\n        }",
+             "        match event {\n            Some(event) => self.actor.notify_supervisor(event),\n            None => {}\n        }")]},
+ {"name": "silent-reorder-independent-stmts-in-start", "props": ["C01", "C04", "C05", "C08"], "expect": "silent",
+  "edits": [("ractor/src/actor.rs", "        lifecycle.mark_running();\n\n        // Generate the ActorRef which will be returned\n        let myself_ret = actor_ref.clone();",
+             "        // Generate the ActorRef which will be returned\n        let myself_ret = actor_ref.clone();\n        lifecycle.mark_running();")]},
+ {"name": "silent-status-gate-as-match", "props": ["C02", "C07"], "expect": "silent",
+  "edits": [("ractor/src/actor/actor_properties.rs", "        let status = self.get_status();\n        if status >= ActorStatus::Draining {\n            // if currently draining, stopping or stopped: reject messages directly.\n            return Err(MessagingErr::SendErr(message));\n        }",
+             "        if self.get_status() >= ActorStatus::Draining {\n            return Err(MessagingErr::SendErr(message));\n        }")]},
+ {"name": "silent-wait-let-else", "props": ["C06"], "expect": "silent",
+  "edits": [("ractor/src/actor/actor_properties.rs", "        let notified = self.wait_handler.notified();\n        if self.get_status() != ActorStatus::Stopped {\n            notified.await;\n        }",
+             "        let notified = self.wait_handler.notified();\n        if self.get_status() == ActorStatus::Stopped {\n            return;\n        }\n        notified.await;")]},
+ {"name": "silent-box-post-stop-future-twice", "props": ["C01", "C03", "C04"], "expect": "silent",
+  "edits": [("ractor/src/actor.rs", "                .run_with_signal(Box::pin(Self::do_post_stop(\n                    myself_clone.clone(),\n                    handler,\n                    exit_state,\n                )))",
+             "                .run_with_signal(Box::pin(Box::pin(Self::do_post_stop(\n                    myself_clone.clone(),\n                    handler,\n                    exit_state,\n                ))))")]},
+ {"name": "silent-link-early-returns-merged", "props": ["C05", "C04"], "expect": "silent",
+  "edits": [("ractor/src/actor/supervision.rs", "        if child.get_status() >= super::actor_cell::ActorStatus::Draining\n            || supervisor.get_status() >= super::actor_cell::ActorStatus::Draining\n        {\n            return false;\n        }",
+             "        if child.get_status() >= super::actor_cell::ActorStatus::Draining {\n            return false;\n        }\n        if supervisor.get_status() >= super::actor_cell::ActorStatus::Draining {\n            return false;\n        }")]},
+ {"name": "silent-elect-sessions-extra-any", "props": ["C18"], "expect": "silent",
+  "edits": [("ractor_cluster/src/node.rs", "    let has_server = candidates.iter().any(|candidate| candidate.is_server);",
+             "    let has_server = candidates.iter().filter(|candidate| candidate.is_server).count() > 0;")]},
+ {"name": "silent-dispatch-else-if-to-match", "props": ["C13", "C15"], "expect": "silent",
+  "edits": [("ractor/src/factory/factoryimpl.rs", "        let is_discardable = self.queue.is_job_discardable(&job.key);\n        let limit_and_mode = self.discard_settings.get_limit_and_mode();\n\n        match limit_and_mode {",
+             "        let is_discardable = self.queue.is_job_discardable(&job.key);\n\n        match self.discard_settings.get_limit_and_mode() {")]},
+ {"name": "silent-handle-node-gate-positive-form", "props": ["C17", "C20"], "expect": "silent",
+  "edits": [("ractor_cluster/src/node/node_session.rs", "        if !state.auth.is_ok() {\n            tracing::warn!(\"Inter-node message received on unauthenticated NodeSession\");\n            return;\n        }\n\n        if let Some(msg) = message.msg {\n            match msg {\n                node_protocol::node_message::Msg::Cast(cast_args) => {",
+             "        let authenticated = state.auth.is_ok();\n        if !authenticated {\n            tracing::warn!(\"Inter-node message received on unauthenticated NodeSession\");\n            return;\n        }\n\n        if let Some(msg) = message.msg {\n            match msg {\n                node_protocol::node_message::Msg::Cast(cast_args) => {")]},
+ {"name": "silent-read-n-bytes-named-remaining", "props": ["C19"], "expect": "silent",
+  "edits": [("ractor_cluster/src/net/session.rs", "        let read_len = (len - buf.len()).min(chunk.len());",
+             "        let remaining = len - buf.len();\n        let read_len = remaining.min(chunk.len());")]},
+ {"name": "silent-send-interval-loop-form", "props": ["C12"], "expect": "silent",
+  "edits": [("ractor/src/time.rs", "        while ACTIVE_STATES.contains(&actor.get_status()) {\n            timer.tick().await;\n            // if we receive an error trying to send, the channel is closed and we should stop trying\n            // actor died\n            if actor.send_message::<TMessage>(msg()).is_err() {\n                break;\n            }\n        }",
+             "        loop {\n            if !ACTIVE_STATES.contains(&actor.get_status()) {\n                break;\n            }\n            timer.tick().await;\n            if actor.send_message::<TMessage>(msg()).is_err() {\n                return;\n            }\n        }")]},
+ {"name": "silent-rename-sink-fn", "props": ["C01", "C03", "C04"], "expect": "silent",
+  "edits": [("ractor/src/actor/actor_cell.rs", "run_with_signal", "race_against_kill", "all"), ("ractor/src/actor.rs", "run_with_signal", "race_against_kill", "all"), ("ractor/src/thread_local/inner.rs", "run_with_signal", "race_against_kill", "all")]},
+ {"name": "silent-rename-listen-fn", "props": ["C01", "C03", "C07"], "expect": "silent",
+  "edits": [("ractor/src/actor/actor_cell.rs", "listen_in_priority", "next_port_message", "all"), ("ractor/src/actor.rs", "listen_in_priority", "next_port_message", "all"), ("ractor/src/thread_local/inner.rs", "listen_in_priority", "next_port_message", "all")]},
+ {"name": "silent-rename-guard-type-and-cleanup", "props": ["C04", "C05", "C06", "C08"], "expect": "silent",
+  "edits": [("ractor/src/actor.rs", "ActorLifecycleGuard", "ExitGuard", "all"), ("ractor/src/thread_local/inner.rs", "ActorLifecycleGuard", "ExitGuard", "all"),
+            ("ractor/src/actor.rs", "fn cleanup(&mut self", "fn run_exit(&mut self"), ("ractor/src/actor.rs", "self.cleanup(", "self.run_exit(", "all")]},
+ {"name": "silent-rename-armed-flag", "props": ["C04", "C05"], "expect": "silent",
+  "edits": [("ractor/src/actor.rs", "armed", "live", "all")]},
+ {"name": "silent-extract-unlink-helper", "props": ["C04", "C05", "C08"], "expect": "silent",
+  "edits": [("ractor/src/actor.rs", "        if let Some(supervisor) = self.actor.try_get_supervisor() {\n            self.actor.unlink(supervisor);\n        }\n\n        self.actor.set_status(ActorStatus::Stopped);",
+             "        self.detach_from_supervisor();\n\n        self.actor.set_status(ActorStatus::Stopped);"),
+            ("ractor/src/actor.rs", "    fn cleanup(&mut self, event: Option<SupervisionEvent>) {", "    fn detach_from_supervisor(&mut self) {\n        if let Some(supervisor) = self.actor.try_get_supervisor() {\n            self.actor.unlink(supervisor);\n        }\n    }\n\n    fn cleanup(&mut self, event: Option<SupervisionEvent>) {")]},
+ {"name": "silent-rename-admission-internals", "props": ["C02", "C07"], "expect": "silent",
+  "edits": [("ractor/src/actor/actor_properties.rs", "try_admit_message", "admit", "all"), ("ractor/src/actor/actor_properties.rs", "send_drain_marker", "emit_marker", "all"),
+            ("ractor/src/actor/actor_properties.rs", "MessageAdmission", "Ticket", "all"), ("ractor/src/actor/actor_properties.rs", "message_admission", "gate_word", "all"),
+            ("ractor/src/thread_local/inner.rs", "message_admission", "gate_word", "all")]},
+ {"name": "silent-rename-worker-internals", "props": ["C13", "C14", "C15"], "expect": "silent",
+  "edits": [("ractor/src/factory/worker.rs", "curr_jobs", "in_flight", "all")]},
 ]
